@@ -62,6 +62,18 @@ def oracle(case, obs):
                "tweak": hb["hash"].hex(),
                "signature": {"r": hb["sig"][0].hex(), "s": hb["sig"][1].hex()}}
         if kind == "uihb":
+            if meta.get("sequence"):
+                # the first request met a device error: it must have said so, and the second one, which
+                # succeeds, must leave the device in the signer
+                j0 = stack.reply_json(obs["replies"][0])
+                if j0 is None or j0.get("errorcode", 0) >= 0:
+                    return {"key": "C13:uihb:error-not-reported", "what": "uiHeartbeat succeeded although "
+                            "the heartbeat exchange failed"}
+                if j.get("errorcode") == 0 and d.mode != 3:
+                    return {"key": "C13:uihb:sequence-mode", "what": "second uiHeartbeat ok but the device "
+                            "is in mode %r, not the signer" % d.mode}
+                if j.get("errorcode") != 0:
+                    return None
             if meta["modes"] != "ok":
                 # the device did not come back to the signer: must be a device error
                 if j.get("errorcode") == 0:
@@ -115,6 +127,16 @@ def gen_cases(rng, n):
                 d.mode, d.after_exit, meta["modes"], meta["start"] = 3, [4, 4], "stuck-second", 3
             else:
                 d.mode, d.after_exit, meta["modes"], meta["start"] = 2, None, "bootloader", 2
+        if q == "uihb" and meta.get("modes") == "ok" and meta.get("start") == 3 and rng.random() < 0.4:
+            # sequences: a first UI heartbeat whose heartbeat exchange fails with a device error, then a
+            # second one (what the first leaves behind decides how the second starts)
+            d.after_exit = [4, 3, 4, 3]
+            d.inject[(0x60, "*")] = rng.choice([0x6A99, 0x6B01, 0x69A1])
+            meta["sequence"] = True
+            req2 = {"command": "uiHeartbeat", "version": 5, "udValue": gen.rbytes(rng, 32).hex()}
+            cases.append({"mode": "v5", "kind": "ledger", "lines": [gen.line(req), gen.line(req2)],
+                          "device": d, "meta": meta, "connects": [True] * 6})
+            continue
         mode = "v5"
         if q == "pubkey" and rng.random() < 0.3:
             mode = "v1"
